@@ -14,6 +14,8 @@ ops (one per line; `T` = timeout in ms or `-`):
   `stop a reply:v|drop|keep|detach`       → graceful stop: the blocked handler (if any) finishes with the
                                              given action, then the actor stops: `handled p …|fwd v|idle`, events
   `advance d`                             → events
+  `fail a err|panic`                      → `failed p|failed-fwd v|idle`, events: the handler of a's current message
+                                             returns Err / panics (ActorFailed: no state handed on)
   `spawnsup`                              → `ok`      (a supervisor; own index space)
   `spawnl u`                              → `ok|failed` (callee spawned linked to supervisor u)
   `suphandle u stash|drop`                → `evt a|idle`, events: u finishes handling the termination event (with
@@ -430,6 +432,22 @@ def step (ds : DS) (op impl : String) : DS × StepOut :=
       let o' := gracefulHolds (applyHandled ds.o a ipre act) a
       finish (Rpc.step ds.m (.stop a act)) pre o' true (timeoutClause ds.o ipre)
     | _, _ => (ds, { model := "bad-op" })
+  | ["fail", a, _] =>
+    match a.toNat? with
+    | some a =>
+      -- which message the failing handler held: the head of the queue
+      let pre := match ds.m.actors[a]? with
+        | some x => if !x.alive then "idle" else
+            (match x.mailbox with | .call p :: _ => s!"failed {p}" | .fwd v :: _ => s!"failed-fwd {v}" | [] => "idle")
+        | none => "idle"
+      -- a failure never hands the state on: everything the actor owned is dropped; a forwarded value the
+      -- failing handler held was delivered to it (it is no longer owed)
+      let o1 := if ipre.startsWith "failed" then killHolds ds.o a else ds.o
+      let o' := match words ipre with
+        | ["failed-fwd", v] => (match v.toNat? with | some v => { o1 with expectFwd := o1.expectFwd.erase (a, v) } | none => o1)
+        | _ => o1
+      run1 (.fail a) pre o' (ipre.startsWith "failed")
+    | none => (ds, { model := "bad-op" })
   | ["drain", a] =>
     match a.toNat? with
     | some a =>
